@@ -17,6 +17,7 @@ import (
 	"os/exec"
 	"path/filepath"
 	"runtime"
+	"runtime/debug"
 	"strings"
 	"sync"
 	"sync/atomic"
@@ -292,6 +293,9 @@ func runChild(path string) {
 		if j > len(ses) {
 			j = len(ses)
 		}
+		// no garbage collection during a batch and its census: an unreachable socket would be closed
+		// by its finalizer, which hides exactly the leak the census looks for
+		gcOld := debug.SetGCPercent(-1)
 		var wg sync.WaitGroup
 		for _, se := range ses[i:j] {
 			wg.Add(1)
@@ -318,6 +322,8 @@ func runChild(path string) {
 			os.Exit(0)
 		}
 		emit("C", map[string]any{"n": "censuses-clean", "v": 1})
+		debug.SetGCPercent(gcOld)
+		runtime.GC()
 	}
 	os.Exit(0)
 }
